@@ -23,8 +23,33 @@ LIB = 'PyBufrKitError'
 
 
 class Stream(Native):
-    def __init__(self, length, sigs, stops=()):
+    def __init__(self, length, sigs, stops=(), headers=None):
         self.length, self.sigs, self.stops = length, sorted(sigs), sorted(stops)
+        self.headers = dict(headers or {})          # start of a real message -> total length declared in its section 0
+
+    def regex_subject(self):
+        """The octets of the stream, for a scanner that looks for message starts with a regular expression: start signature at every
+        signature position (followed, for a real message, by the declared length and edition 4), '7777' at every stop position."""
+        data = bytearray(b'.' * self.length)
+        for p in self.stops:
+            data[p:p + 4] = b'7777'
+        for p in self.sigs:
+            data[p:p + 4] = b'BUFR'
+            if p in self.headers:
+                data[p + 4:p + 7] = self.headers[p].to_bytes(3, 'big')
+                data[p + 7] = 4
+        return bytes(data[:self.length])
+
+    def regex_searched(self, interp, method, start, mo):
+        if method != 'search':
+            raise AnalysisError('generate_bufr_message applies a regular expression to the stream with %s()' % method)
+        found = -1 if mo is None else mo.start()
+        interp.event('find', start)
+        last = getattr(self, 'last_start', None)
+        if last is not None and start <= last and getattr(self, 'last_found', -1) >= 0 and start <= self.last_found:
+            interp.event('rescan', start, self.last_found)
+            raise Raise('ScanDoesNotAdvance', None, 'stream model')
+        self.last_start, self.last_found = start, found
 
     def __repr__(self):
         return 'Stream'
@@ -173,11 +198,13 @@ def scenario():
         Msg(345, 35, matched=True, declared=31),                   # intact sections, section-0 total understated
         Msg(385, 30, category=11, n_subsets=2, matched=True, foreign=True),   # data category 11 in another layout: a message like any other
         Msg(420, 25, matched=True),
+        Msg(450, 266, matched=True),                               # 266 = 0x00010A: the length octets contain a line feed
+        Msg(720, 30, matched=True),
     ]
     decoys = [130, 320]
     # stop signatures: the real end of every message, and the characters '7777' inside the bodies of two messages
     stops = [m.start + m.length - 4 for m in msgs] + [50, 150]
-    stream = Stream(448, [m.start for m in msgs] + decoys, stops)
+    stream = Stream(753, [m.start for m in msgs] + decoys, stops, headers=dict((m.start, m.declared) for m in msgs))
     return msgs, stream
 
 
@@ -243,7 +270,7 @@ def generated_scenario(kinds):
             stops.append(pos + 20)
         stops.append(pos + length - 4)
         pos += length + (i % 3)
-    return msgs, Stream(pos + 24, [m.start for m in msgs] + decoys, stops)
+    return msgs, Stream(pos + 24, [m.start for m in msgs] + decoys, stops, headers=dict((m.start, m.declared) for m in msgs))
 
 
 def rule_r1(repo, tier='quick'):
